@@ -43,7 +43,8 @@ ASSUMPTIONS = [
     "cancel() while a window is open is not generated (the statement only covers cancellation before activation)",
     "bystander logs are compared as multisets (same-instant order of pre-run vs run-created events is C01's subject)",
     "overlapping InjectLatency / ReduceCapacity windows: only 'some extra delay' / 'capacity below configured' is demanded",
-    "a live RandomPartition may block pairs inside its node set at instants the schedule does not determine: for such pairs only 'blocked while a NetworkPartition / loss window covers the send' is demanded, every other pair keeps the full two-sided oracle",
+    "a RandomPartition may block pairs inside its node set only while one of its own fault cycles is open (open cycles = recorded fault events minus heal events before the send): while open, only 'blocked while a NetworkPartition / loss window covers the send' is demanded for such pairs; while closed, and for every other pair, the full two-sided oracle applies",
+    "events created during the run for a crashed target are judged by the target's state at their due time, not at creation time",
 ]
 MUST_OBSERVE = ["observations_checked"]
 
@@ -199,6 +200,11 @@ def evaluate(case: dict, faults: list, obs: dict, base: dict | None, stats: dict
                 if t in edges:
                     continue
                 cover, interf, word = structure(W, t)
+                via = wk.get("via")
+                made_inside = via is not None and any(w["s"] < via < w["e"] for w in W)
+                if made_inside and not cover:
+                    bump("future_dated_events_created_inside_window_due_outside")
+                    stats["inflight_seen"] = 1
                 if not cover:
                     bump("observations_checked")
                     if (t, wk["id"]) not in seen_h:
@@ -206,7 +212,7 @@ def evaluate(case: dict, faults: list, obs: dict, base: dict | None, stats: dict
                             V(
                                 "not-handled-outside-windows",
                                 comp_of(W),
-                                f"{kind}/{word}",
+                                f"{kind}/{word}" + ("/created-inside-window" if made_inside else ""),
                                 ("nothandled", name, t, wk["id"]),
                                 f"event id {wk['id']} delivered to '{name}' at t={t}ns, outside every effective window "
                                 f"{[(w['type'], w['s'], w['e']) for w in W]}, was not handled",
@@ -343,6 +349,23 @@ def evaluate(case: dict, faults: list, obs: dict, base: dict | None, stats: dict
                 base_ns[(ln["b"], ln["a"])] = ln["base_ns"]
         parts = [w for w in eff if w["type"] == "NetworkPartition"]
         rsets = [set(w["f"]["nodes"]) for w in eff if w["type"] == "RandomPartition"]
+        # recorded instants of the random partition's own fault / heal events: its open cycles are the only
+        # thing that may block a pair of its node set outside the windows of the schedule
+        rev = sorted(obs.get("random_partition_events", []))
+        rev_times = {te for te, _ in rev}
+
+        def rp_open(t):
+            return sum(1 for te, k in rev if te < t and k == "fault") - sum(1 for te, k in rev if te < t and k == "heal")
+
+        def rp_overlapped(t):
+            n = 0
+            for te, k in rev:
+                if te >= t:
+                    break
+                n += 1 if k == "fault" else -1
+                if n >= 2:
+                    return True
+            return False
         # how often a random heal / fault fell inside a NetworkPartition window (measured, for evidence)
         for t_ev, kind_ev in obs.get("random_partition_events", []):
             if any(w["s"] < t_ev < w["e"] for w in parts):
@@ -379,6 +402,8 @@ def evaluate(case: dict, faults: list, obs: dict, base: dict | None, stats: dict
             b0 = base_ns[(src, dst)]
             bump("observations_checked")
             bump("probes_checked")
+            if arrivals and len(rsets) == 1 and src in rsets[0] and dst in rsets[0] and ts not in rev_times and rp_open(ts) <= 0:
+                bump("probes_random_partition_closed")
             if arrivals:
                 ta = arrivals[0]
                 delay = ta - ts
@@ -459,10 +484,23 @@ def evaluate(case: dict, faults: list, obs: dict, base: dict | None, stats: dict
                     rdown = [w for w in node_w.get(dst, []) if w["s"] <= hi and w["e"] >= lo]
                     if rdown or hi >= horizon - MS:
                         bump("probes_receiver_down")
-                    elif any(src in rs and dst in rs for rs in rsets):
-                        # both endpoints belong to a live RandomPartition: it may legitimately block the pair at
-                        # instants the schedule does not determine; only the covered-by-a-window direction is demanded
+                    elif any(src in rs and dst in rs for rs in rsets) and (len(rsets) > 1 or ts in rev_times or rp_open(ts) > 0):
+                        # both endpoints belong to a RandomPartition that has a fault cycle open at the send instant:
+                        # the random split may legitimately separate them; nothing is demanded
                         bump("probes_excused_by_random_partition")
+                    elif any(src in rs and dst in rs for rs in rsets):
+                        bump("probes_random_partition_closed")
+                        out.append(
+                            V(
+                                "blocked-without-open-random-fault",
+                                "RandomPartition",
+                                "earlier-cycles-overlapped" if rp_overlapped(ts) else "cycles-alternate",
+                                ("rdrop", mid),
+                                f"message {mid} {src}>{dst} sent at t={ts}ns never arrived: no partition / loss window covers it and the "
+                                f"RandomPartition had {rp_open(ts)} open fault cycle(s) (events before: "
+                                f"{[(te, k) for te, k in rev if te < ts][-6:]})",
+                            )
+                        )
                     else:
                         fin = obs["final"]
                         comp = "Network"
@@ -550,6 +588,24 @@ def evaluate(case: dict, faults: list, obs: dict, base: dict | None, stats: dict
                     )
                 elif len(cover) == 1 and not interf and abs(cap - cap0 * cover[0]["f"]["factor"]) > 1e-6:
                     out.append(V("capacity-wrong-amount", "ReduceCapacity", word, ("cap", rn, t), f"'{rn}' capacity {cap} at t={t}ns, expected {cap0 * cover[0]['f']['factor']}"))
+                if waiters > 0 and head is not None and avail >= head:
+                    # end of an instant at which nothing else happens: the head waiter fits the capacity in
+                    # effect and is still queued (e.g. a stronger overlapping window ended and nobody was woken)
+                    tcall = calls.get((rn, head_jid))
+                    ended = [w for w in W if tcall is not None and tcall <= w["e"] < t]
+                    if ended:
+                        stats["overlap_seen"] = 1
+                    out.append(
+                        V(
+                            "waiter-stranded-inside-window",
+                            "ReduceCapacity",
+                            "other-window-ended-while-waiting" if ended else "no-window-end-while-waiting",
+                            ("strand", rn, t),
+                            f"'{rn}' at t={t}ns inside {[(w['f']['factor'], w['s'], w['e']) for w in cover]}: {waiters} waiter(s), head "
+                            f"(job {head_jid}, queued at {tcall}ns) wants {head}, available {avail}, capacity {cap}; windows that ended "
+                            f"while it waited: {[(w['f']['factor'], w['s'], w['e']) for w in ended]}",
+                        )
+                    )
         for g in grants:
             tg, r2, jid, amount, held_after, cap_at, rel = g
             if r2 != rn or tg in edges:
@@ -591,10 +647,23 @@ def evaluate(case: dict, faults: list, obs: dict, base: dict | None, stats: dict
                 if abs(st["latency_ns"] - base_ns[(a, b)]) > TOL_NS:
                     out.append(V("state-not-restored", "InjectLatency", _nshape(nD), ("fin", key, "lat"), f"link {key} latency {st['latency_ns']}ns != base {base_ns[(a, b)]}ns after all windows ended"))
             frs = [set(w["f"]["nodes"]) for w in eff if w["type"] == "RandomPartition"]
+            rp_live = len(frs) > 1 or (len(frs) == 1 and rp_open(INF) > 0)  # a random cycle still open at the end
             stuck = [pr for pr in fin.get("partitioned", []) if not any(pr[0] in rs and pr[1] in rs for rs in frs)]
             if stuck:
                 nP = len([w for w in eff if w["type"] == "NetworkPartition"])
                 out.append(V("state-not-restored", "NetworkPartition", _nshape(nP), ("fin", "part"), f"pairs still partitioned after all windows ended: {stuck[:6]}"))
+            rstuck = [pr for pr in fin.get("partitioned", []) if pr not in stuck]
+            if rstuck and not rp_live:
+                out.append(
+                    V(
+                        "state-not-restored",
+                        "RandomPartition",
+                        "earlier-cycles-overlapped" if rp_overlapped(INF) else "cycles-alternate",
+                        ("fin", "rpart"),
+                        f"pairs {rstuck[:6]} still partitioned at the end although every window ended and the RandomPartition has "
+                        f"as many heals as faults ({len(rev)} events)",
+                    )
+                )
         for rn, st in fin["resources"].items():
             nC = len([w for w in eff if w["type"] == "ReduceCapacity" and w["f"]["res"] == rn])
             if abs(st["capacity"] - res_cfg[rn]) > EPS:
@@ -791,11 +860,44 @@ def _gen_steps(rng, nmax=4, futures=True):
     return steps
 
 
+def _dispatched(rng, name, win_ms, ids, steps=False):
+    """Events created *during the run* by the never-faulted dispatcher at t=via, due at t (delayed job /
+    retry / timer): created inside a window and due after the restart, created inside and due inside,
+    created before and due after."""
+    out = []
+    for s, e in win_ms:
+        if e is None or rng.random() > 0.7:
+            continue
+        s_ns, e_ns = s * MS, e * MS
+        for _ in range(rng.randrange(1, 4)):
+            mode = rng.choice(["in-after", "in-after", "in-after", "in-in", "before-after", "before-in"])
+            inside = s_ns + 2 + rng.randrange(0, max(1, e_ns - s_ns - 4))
+            after = e_ns + rng.choice([2, 1000, 1 * MS, 5 * MS, 20 * MS]) + rng.randrange(0, 999)
+            before = max(3, s_ns - rng.choice([2, 1000, 1 * MS, 8 * MS]) - rng.randrange(0, 999))
+            via, due = {
+                "in-after": (inside, after),
+                "in-in": (inside, min(e_ns - 2, inside + rng.randrange(1, max(2, e_ns - inside)))),
+                "before-after": (before, after),
+                "before-in": (before, inside),
+            }[mode]
+            if due <= via:
+                continue
+            wk = {"id": next(ids), "to": name, "t": due, "via": via}
+            if steps:
+                wk["steps"] = _gen_steps(rng, nmax=2)
+            else:
+                wk["op"] = rng.choice(["work", "emit"])
+            out.append(wk)
+    return out
+
+
 def _node_workload(rng, node, win_ms, T_ms, ids, scale=1.0):
     """Arrivals for one node; returns list of work dicts."""
     name, kind = node["name"], node["kind"]
     out = []
     T = T_ms * MS
+    if kind in ("plain", "gen"):
+        out.extend(_dispatched(rng, name, win_ms, ids, steps=(kind == "gen")))
     if kind == "plain":
         ts = [rng.randrange(5, T) for _ in range(int(rng.randrange(10, 35) * scale))] + _edge_times(rng, win_ms)
         for t in ts:
@@ -977,6 +1079,16 @@ def _net_part(rng, case, ids, T_ms, n_faults, p_cancel, scale=1.0):
         if rng.random() < p_cancel:
             f["cancel"] = rng.choice(["pre", "post"])
         case["faults"].insert(rng.randrange(0, len(case["faults"]) + 1), f)
+        if len(rnodes) >= 2:  # probe one pair of the random set in both directions, whatever the windows touch
+            ra, rb = rng.sample(rnodes, 2)
+            for src, dst in ((ra, rb), (rb, ra)):
+                if (src, dst) in pairs:
+                    continue
+                period = int(rng.choice([2, 3, 5]) * MS / max(scale, 0.2)) + rng.randrange(1, 999)
+                t = rng.randrange(5, period)
+                while t < T:
+                    case["work"].append({"id": next(ids), "to": src, "t": t, "op": "send", "dst": dst})
+                    t += period
     return names
 
 
@@ -988,6 +1100,7 @@ def _cap_part(rng, case, ids, T_ms, n_faults, p_cancel, scale=1.0):
     wins = _gen_windows(rng, n_faults, 5, T_ms - 40)
     minred = {r["name"]: float(r["cap"]) for r in ress}
     per = {r["name"]: [] for r in ress}
+    perf: dict = {}
     for s, e in wins:
         r = hot if rng.random() < 0.75 else rng.choice(ress)
         facs = [f for f in (0.2, 0.25, 0.5, 0.5, 0.75, 0.9) if r["cap"] * f >= 1.0]
@@ -997,9 +1110,22 @@ def _cap_part(rng, case, ids, T_ms, n_faults, p_cancel, scale=1.0):
         case["faults"].append(f)
         minred[r["name"]] = min(minred[r["name"]], r["cap"] * fac)
         per[r["name"]].append([s, e])
+        perf.setdefault(r["name"], []).append((s, e, fac))
     T = T_ms * MS
+    aimed_samples = []
     for r in ress:
         amax = max(1, int(minred[r["name"]]))
+        # aimed: a stronger window A ending inside a weaker window B, a holder across both, a waiter queued under A
+        fl = perf.get(r["name"], [])
+        for (sa, ea, fa) in fl:
+            for (sb, eb, fb) in fl:
+                if fa < fb and sb < ea < eb and r["cap"] * fb - amax >= 1 and rng.random() < 0.8:
+                    t_hold = max(1300, (min(sa, sb) * MS - rng.choice([1, 3]) * MS) // 1000 * 1000 + 300)
+                    case["jobs"].append({"id": next(ids), "res": r["name"], "t": t_hold, "amount": amax, "hold_ns": (eb * MS - t_hold) // 1000 * 1000 + rng.choice([2, 10]) * MS})
+                    t_wait = max(max(sa, sb) * MS + 1000, ea * MS - rng.choice([1, 2, 3]) * MS) // 1000 * 1000 + 300
+                    if t_wait < ea * MS:
+                        case["jobs"].append({"id": next(ids), "res": r["name"], "t": t_wait, "amount": rng.randrange(1, amax + 1), "hold_ns": rng.choice([1, 2]) * MS})
+                        aimed_samples += [_world().sec_to_ns(ea / 1000.0) + 1, ea * MS + 200_123]
         n = int(rng.randrange(8, 36) * scale)
         starts = [rng.randrange(1, T // 1000) * 1000 + 300 for _ in range(n)]
         for s, _e in per[r["name"]]:  # aimed: holders across the window start, acquirers inside
@@ -1022,6 +1148,7 @@ def _cap_part(rng, case, ids, T_ms, n_faults, p_cancel, scale=1.0):
         samples.add(kms * MS + 500_123)
     for t in _edge_times(rng, wins, p=0.7, offs=(-1, 1)):
         samples.add(t)
+    samples.update(aimed_samples)
     case["samples"] = sorted(samples)
 
 
